@@ -40,22 +40,63 @@ def render(case, k):
     lit = lit_bytes(case)
     d = case["decl"]
     if case["ctx"] == "str":
-        if d["o"] == "ok":
+        if d["o"] in ("ok", "okrej"):
             t = CTYPE[sorted(d["tys"])[0]]
         else:
             t = DEFAULT_T[result_prefix(case)] or WCHAR_DECL[case["targ"]]
+        t = t.encode()
+        alen, stor = case.get("alen", -1), case.get("stor", "static")
+        dim = b"" if alen < 0 else b"%d" % alen
         gen = b", ".join(("%s*:%d" % (c, i + 1)).encode() for i, c in enumerate(PROBE_C))
-        return (b"%s s%d[] = %s;\nunsigned long n%d = sizeof s%d;\nunsigned long m%d = sizeof %s;\n"
-                b"int g%d = _Generic(%s, %s, default:0);\n" % (t.encode(), k, lit, k, k, k, lit, k, lit, gen))
+        probes = b"unsigned long m%d = sizeof %s;\nint g%d = _Generic(%s, %s, default:0);\n" % (k, lit, k, lit, gen)
+        if stor == "auto":       # automatic object: observed through the stores of the function that initialises it
+            return b"void f%d(void) { %s s[%s] = %s; }\n" % (k, t, dim, lit) + probes
+        if stor == "member":     # array member followed by another member of the same element type
+            return (b"struct { %s a[%s]; %s b; } s%d = { %s, %d };\nunsigned long n%d = sizeof s%d;\n"
+                    % (t, dim, t, k, lit, MEMBER_VAL, k, k)) + probes
+        return b"%s s%d[%s] = %s;\nunsigned long n%d = sizeof s%d;\n" % (t, k, dim, lit, k, k) + probes
     gen = b", ".join(("%s:%d" % (c, i + 1)).encode() for i, c in enumerate(PROBE_C))
     return (b"long long v%d = %s;\nint c%d = %s;\nint g%d = _Generic(%s, %s, default:0);\n" % (k, lit, k, lit, k, lit, gen))
+
+
+MEMBER_VAL = 90          # Lit.tla: MemberVal (only rendered; the expected image comes from TLC)
+_STORE = {"storeb": 1, "storeh": 2, "storew": 4, "storel": 8}
+
+
+def auto_image(fn):
+    """Bytes an initialising function writes into its single stack object: alloc / add base,const / store const,addr only.
+    Returns (alloc size, list of bytes with None where nothing was stored)."""
+    base, size, addr, img = None, None, {}, None
+    for b in fn["blocks"]:
+        if b["phi"]:
+            raise KeyError("phi")
+        for i in b["insts"]:
+            op, a = i["op"], i.get("args", [])
+            if op in ("alloc4", "alloc8", "alloc16"):
+                if base is not None or a[0]["t"] != "int":
+                    raise KeyError("second alloc")
+                base, size = i["res"], a[0]["v"]
+                addr[base] = 0
+                img = [None] * size
+            elif op == "add" and a[0]["t"] == "tmp" and a[0]["n"] in addr and a[1]["t"] == "int":
+                addr[i["res"]] = addr[a[0]["n"]] + a[1]["v"]
+            elif op in _STORE and a[0]["t"] == "int" and a[1]["t"] == "tmp" and a[1]["n"] in addr:
+                off, w = addr[a[1]["n"]], _STORE[op]
+                if off + w > size:
+                    raise KeyError("store outside the object at %d" % off)
+                img[off:off + w] = list((a[0]["v"] & ((1 << 8 * w) - 1)).to_bytes(w, "little"))
+            else:
+                raise KeyError("unexpected instruction %s" % op)
+    if img is None:
+        raise KeyError("no alloc")
+    return size, img
 
 
 def _num(img):
     return int.from_bytes(bytes(img), "little")
 
 
-def project(case, k, data):
+def project(case, k, data, funcs=None):
     """Observed projection of case k from the parsed data definitions, in the shape of Decl's "ok" record."""
     def img(name):
         if name not in data:
@@ -67,13 +108,21 @@ def project(case, k, data):
     g = _num(img("g%d" % k))
     ty = PROBE[g - 1] if 1 <= g <= len(PROBE) else "?"
     if case["ctx"] == "str":
-        s = img("s%d" % k)
-        n = _num(img("n%d" % k))
         m = _num(img("m%d" % k))
+        if case.get("stor") == "auto":
+            n, s = auto_image(funcs["f%d" % k])
+        else:
+            s = img("s%d" % k)
+            n = _num(img("n%d" % k))
         return {"o": "ok", "ty": ty, "bytes": s, "sizeof_obj": n, "sizeof_lit": m}
     v = img("v%d" % k)
     c = img("c%d" % k)
     return {"o": "ok", "ty": ty, "bytes": v, "int_bytes": c}
+
+
+def _parse(out):
+    mod = ilparse.parse(out)
+    return ilparse.data_by_name(mod), {f["name"]: f for f in mod["funcs"]}
 
 
 def same_as(obs, exp, case):
@@ -83,7 +132,7 @@ def same_as(obs, exp, case):
     if obs["ty"] not in exp["tys"] or obs["bytes"] != exp["bytes"]:
         return False
     if case["ctx"] == "str":
-        return obs["sizeof_obj"] == exp["n"] * exp["size"] and obs["sizeof_lit"] == exp["n"] * exp["size"]
+        return obs["sizeof_obj"] == exp["osize"] == len(obs["bytes"]) and obs["sizeof_lit"] == exp["n"] * exp["size"]
     return obs["int_bytes"] == exp["bytes"][:4]
 
 
@@ -97,6 +146,8 @@ def conforms(obs, d, case):
         return obs["o"] == "reject" or all(b == 0 for b in obs["bytes"][d["size"]:])
     if d["o"] == "reject":
         return obs["o"] == "reject"
+    if d["o"] == "okrej":
+        return obs["o"] == "reject" or same_as(obs, dict(d, o="ok"), case)
     return same_as(obs, d, case)
 
 
@@ -109,6 +160,8 @@ def classify(obs, d):
         return "rejected-valid"
     if d["o"] == "weak":
         return "value-outside-type"
+    if obs["ty"] in d["tys"] and (obs.get("sizeof_obj") != d.get("osize", obs.get("sizeof_obj")) or len(obs["bytes"]) != len(d["bytes"])):
+        return "wrong-object-size"
     if obs["ty"] not in d["tys"]:
         return "wrong-type"
     return "wrong-value"
@@ -122,7 +175,8 @@ def run_single(obj, case):
 def _single_result(case, rc, out, err):
     if rc == 0:
         try:
-            return project(case, 0, ilparse.data_by_name(ilparse.parse(out)))
+            data, funcs = _parse(out)
+            return project(case, 0, data, funcs)
         except (ilparse.ILSyntaxError, KeyError) as ex:
             return {"o": "malformed-output", "detail": str(ex)[:200]}
     if rc == 1 and "error:" in err:
@@ -182,8 +236,8 @@ def run_batch(obj, targ, batch):
     rc, out, err = vlib.cproc(obj, src, targ, timeout=60)
     if rc == 0:
         try:
-            data = ilparse.data_by_name(ilparse.parse(out))
-            return [project(c, k, data) for k, c in enumerate(batch)]
+            data, funcs = _parse(out)
+            return [project(c, k, data, funcs) for k, c in enumerate(batch)]
         except (ilparse.ILSyntaxError, KeyError):
             pass
     return [run_single(obj, c) for c in batch]
@@ -259,15 +313,20 @@ def sanitizer_pass(ctx, cases, obs):
     ctx.cov["sanitizer_cases"] = ctx.cov.get("sanitizer_cases", 0) + n
 
 
+def case_key(c):
+    return (c["ctx"], c["targ"], lit_bytes(c), c.get("alen", -1), c.get("stor", "static"))
+
+
 def nontrivial(case):
-    return (case["decl"]["o"] != "ok" or len(case["parts"]) > 1 or
+    return (case["decl"]["o"] != "ok" or len(case["parts"]) > 1 or case.get("alen", -1) >= 0 or
             any(b >= 0x80 or b == 92 for p in case["parts"] for b in p["body"]))
 
 
 def case_view(case, obs=None):
     v = {"ctx": case["ctx"], "targ": case["targ"], "source": lit_bytes(case).decode("latin-1"),
          "source_bytes": list(lit_bytes(case)), "expected": case["decl"], "model_with_deviations": case["impl"],
-         "fired": case["fired"], "parts": case["parts"]}
+         "fired": case["fired"], "parts": case["parts"], "alen": case.get("alen", -1), "stor": case.get("stor", "static"),
+         "rendered": render(case, 0).decode("latin-1")}
     if obs is not None:
         v["observed"] = obs
     return v
@@ -278,7 +337,7 @@ def judge(ctx, cases, obs, stats):
         if o is None:
             stats["not-replayed(quick)"] = stats.get("not-replayed(quick)", 0) + 1
             continue
-        ctx.count(vlib.sha(lit_bytes(c) + c["targ"].encode() + c["ctx"].encode()), nontrivial=nontrivial(c))
+        ctx.count(vlib.sha(repr(case_key(c))), nontrivial=nontrivial(c))
         stats[c["decl"]["o"]] = stats.get(c["decl"]["o"], 0) + 1
         if conforms(o, c["decl"], c):
             continue
@@ -293,7 +352,8 @@ def judge(ctx, cases, obs, stats):
                 stats["dev:" + dev] = stats.get("dev:" + dev, 0) + 1
                 ctx.violation("dev:" + dev, what, case_view(c, o))
         else:
-            key = "lit:%s:%s:%s" % (c["ctx"], pfx or "plain", classify(o, c["decl"]))
+            key = "lit:%s:%s:%s" % (c["ctx"] if c.get("alen", -1) < 0 else "arrayinit-" + c.get("stor", "static"),
+                                    pfx or "plain", classify(o, c["decl"]))
             if not explained:
                 key += ":unmodelled"
             ctx.violation(key, what, case_view(c, o))
@@ -322,7 +382,11 @@ def gcc_dump(ctx, cases, tag):
         lit = lit_bytes(c)
         if c["ctx"] == "str":
             t = CTYPE[c["decl"]["tys"][0]].encode()
-            src.append(b"static const %s s%d[] = %s;\n" % (t, k, lit))
+            dim = b"" if c.get("alen", -1) < 0 else b"%d" % c["alen"]
+            if c.get("stor") == "member":
+                src.append(b"static const struct { %s a[%s]; %s b; } s%d[1] = { { %s, %d } };\n" % (t, dim, t, k, lit, MEMBER_VAL))
+            else:                                   # automatic objects have the same value as static ones (6.7.9)
+                src.append(b"static const %s s%d[%s] = %s;\n" % (t, k, dim, lit))
         else:
             src.append(b"static const long long s%d[1] = { %s };\n" % (k, lit))
     src.append(b"static const struct { const void *p; unsigned long n; int g; } tab[] = {\n")
@@ -387,7 +451,7 @@ def audit_ok_gcc(ctx, cases):
         if rp == "L" and not _WCHAR_SIGNED[c["targ"]]:
             continue                                   # host gcc's wchar_t is signed: left to clang --target
         flag = CharSignedFlag(c["targ"])
-        key = (flag, c["ctx"], lit_bytes(c))
+        key = (flag, c["ctx"], lit_bytes(c), c.get("alen", -1), c.get("stor", "static") == "member")
         if key in seen:
             continue
         seen.add(key)
@@ -522,9 +586,10 @@ def load_cases(r):
     return cases
 
 
-FAMILIES = ["byte", "utf8", "oct", "hex", "esc", "cat"]
+FAMILIES = ["byte", "utf8", "oct", "hex", "esc", "cat", "arr"]
 WHYS = ["utf8", "utf8-beyond", "escape", "escape-range", "prefix-mix", "delimiter", "newline", "empty", "cp-range",
         "nul-or-cr-in-source", "wide-prefix-mix", "escape-in-unprefixed-part", "multi-char", "multibyte-plain", "ucn-not-modelled"]
+NCHUNKS = len(FAMILIES) * 3 * 5
 
 
 def spec_devs(cfg):
@@ -542,7 +607,7 @@ def vacuity_guard(ctx, cases, cfg):
     fired = {d for c in cases for d in c["fired"]}
     lacking = [w for w in WHYS if w not in whys] + [d for d in spec_devs(cfg) if d not in fired]
     kinds = {c["decl"]["o"] for c in cases}
-    if missing or lacking or kinds != {"ok", "reject", "unspec", "weak"}:
+    if missing or lacking or kinds != {"ok", "okrej", "reject", "unspec", "weak"}:
         raise vlib.MachineryError("vacuity guard: chunks never enumerated %s, classes never produced %s, verdicts %s" % (missing[:5], lacking, kinds))
     ctx.cov["untaken_actions"] = []
     ctx.cov["classes_seen"] = sorted(w for w in whys if w)
@@ -587,8 +652,8 @@ def run(ctx):
         cfg, simcfg = derive(cfg), derive(simcfg)
     r = ctx.tlc_must_pass("Lit", cfg, workers=8 if ctx.quick else 16, timeout=1500)
     cases = load_cases(r)
-    if len(cases) != r.distinct - 90:
-        raise vlib.MachineryError("expected one VCASE per case state: %d vs %d" % (len(cases), r.distinct - 90))
+    if len(cases) != r.distinct - NCHUNKS:
+        raise vlib.MachineryError("expected one VCASE per case state: %d vs %d" % (len(cases), r.distinct - NCHUNKS))
     vacuity_guard(ctx, cases, cfg)
     audit_targets(ctx, cases)
     audit(ctx, cases, 400 if ctx.quick else 6000)
@@ -611,7 +676,7 @@ def run(ctx):
         if not r2.ok:
             raise vlib.MachineryError("Lit.tla simulation rejected its own model (rc=%d):\n%s" % (r2.rc, r2.out[-3000:]))
         for c in load_cases(r2):
-            key = (c["ctx"], c["targ"], lit_bytes(c))
+            key = case_key(c)
             if key not in seen:
                 seen.add(key)
                 rnd.append(c)
@@ -631,7 +696,8 @@ def run(ctx):
 def replay(ctx, path):
     rec = json.load(open(path))
     case = rec["case"]
-    c = {"ctx": case["ctx"], "targ": case["targ"], "parts": case["parts"], "decl": case["expected"],
+    c = {"ctx": case["ctx"], "targ": case["targ"], "parts": case["parts"], "alen": case.get("alen", -1),
+         "stor": case.get("stor", "static"), "decl": case["expected"],
          "impl": case["model_with_deviations"], "fired": case["fired"]}
     obj = private_build(ctx)
     o = run_single(obj, c)
